@@ -172,7 +172,7 @@ doing so). obiannotate -S 'isa=annotations.x=="a"' evaluated annotations.x (a co
 	})
 
 	register(&Rule{
-		ID: "MC", Props: []string{"C16"}, Min: 2,
+		ID: "MC", Props: []string{"C16"}, Min: 1,
 		Doc: `"option values at and around the boundaries": a count and a length may be 0, so a minimum of 1 is a criterion as any other. In pkg/obitools/obigrep a condition V > K (or V >= K) on an option
 variable V that guards the construction of a lower-bound predicate (obiseq.IsMoreAbundantOrEqualTo(V), IsLongerOrEqualTo(V)) has K <= 0 (K <= 1): obigrep -c 1 kept a record holding count:0,
 and obigrep -v -c 1 kept every record (no predicate at all, --save-discarded not even created).`,
@@ -191,15 +191,41 @@ and obigrep -v -c 1 kept every record (no predicate at all, --save-discarded not
 					}
 					v := rootObj(info, b.X)
 					k, isC := constInt(info, b.Y)
-					if v == nil || !isC || v.Parent() != p.Types.Scope() {
+					if v == nil || !isC || v.Parent() != p.Types.Scope() && !isParamOf(info, fd, v) {
 						return true
+					}
+					isLower := func(fn string) bool {
+						return strings.HasSuffix(fn, "/pkg/obiseq.IsMoreAbundantOrEqualTo") || strings.HasSuffix(fn, "/pkg/obiseq.IsLongerOrEqualTo")
 					}
 					lower := false
 					ast.Inspect(is.Body, func(m ast.Node) bool {
 						if call, ok := m.(*ast.CallExpr); ok && len(call.Args) == 1 && rootObj(info, call.Args[0]) == v {
-							fn := fullName(callee(info, call))
-							if strings.HasSuffix(fn, "/pkg/obiseq.IsMoreAbundantOrEqualTo") || strings.HasSuffix(fn, "/pkg/obiseq.IsLongerOrEqualTo") {
+							if isLower(fullName(callee(info, call))) {
 								lower = true
+							}
+							// the maker of the predicate is itself a parameter: what the callers of the package give for it
+							if fo := rootObj(info, call.Fun); fo != nil && isParamOf(info, fd, fo) {
+								idx, k2 := -1, 0
+								for _, fl := range fd.Type.Params.List {
+									for _, nm := range fl.Names {
+										if info.ObjectOf(nm) == fo {
+											idx = k2
+										}
+										k2++
+									}
+								}
+								for _, f2 := range p.Syntax {
+									ast.Inspect(f2, func(q ast.Node) bool {
+										if c2, ok := q.(*ast.CallExpr); ok && idx >= 0 && idx < len(c2.Args) && callee(info, c2) != nil && callee(info, c2) == info.Defs[fd.Name] {
+											if sel, ok := ast.Unparen(c2.Args[idx]).(*ast.SelectorExpr); ok {
+												if f3, ok := info.Uses[sel.Sel].(*types.Func); ok && isLower(fullName(f3)) {
+													lower = true
+												}
+											}
+										}
+										return true
+									})
+								}
 							}
 						}
 						return true
@@ -225,7 +251,7 @@ and obigrep -v -c 1 kept every record (no predicate at all, --save-discarded not
 	})
 
 	register(&Rule{
-		ID: "IV", Props: []string{"C16"}, Min: 2,
+		ID: "IV", Props: []string{"C16"}, Min: 1,
 		Doc: `"-v keeps exactly the others and the discarded-records file receives exactly the complement": for SequencePredicate nil means "no criterion" and Not() of nil is nil. In pkg/obitools/obigrep the
 statements guarded by the inverse-match flag do not call .Not() on a predicate that may be nil: the call lies under a nil test of its receiver (in the function, or in the package helper the branch
 calls). obigrep -v alone kept every record.`,
